@@ -53,7 +53,21 @@ Section Main.
           parse_at (level e) (R f) f (PT e ++ rest) = Some (SP e, rest);
     m_B : bare_operand e = true -> forall f, (need e <= f)%nat -> forall rest, acc_head rest = true ->
           exists n, (f <= n + need e)%nat /\
-                    parse_member (R f) f (PT e ++ rest) = access_loop (R f) f n e rest
+                    parse_member (R f) f (PT e ++ rest) = access_loop (R f) f n e rest;
+    (* left-associative chains: the level parser ends in its loop with the whole chain as accumulator *)
+    m_C : match e with
+          | And _ _ => forall f, (need e <= f)%nat -> forall rest, follow_ok 3 rest = true ->
+                       exists n, (f <= n + need e)%nat /\ parse_and (R f) f (PT e ++ rest) = and_loop (R f) f n e rest
+          | Or _ _ => forall f, (need e <= f)%nat -> forall rest, follow_ok 2 rest = true ->
+                      exists n, (f <= n + need e)%nat /\ parse_or (R f) f (PT e ++ rest) = or_loop (R f) f n e rest
+          | BinApp BAdd _ _ | BinApp BSub _ _ =>
+                      forall f, (need e <= f)%nat -> forall rest, follow_ok 5 rest = true ->
+                      exists n, (f <= n + need e)%nat /\ parse_add (R f) f (PT e ++ rest) = add_loop (R f) f n e rest
+          | BinApp BMul _ _ =>
+                      forall f, (need e <= f)%nat -> forall rest, follow_ok 6 rest = true ->
+                      exists n, (f <= n + need e)%nat /\ parse_mul (R f) f (PT e ++ rest) = mul_loop (R f) f n e rest
+          | _ => True
+          end
   }.
 
   Lemma top x : printable x = true -> main x ->
@@ -163,7 +177,7 @@ Section Main.
     intros Hk Hp.
     assert (level e = 7%nat) as E7 by (destruct e; try contradiction; reflexivity).
     assert (need e = 1%nat) as En by (destruct e; try contradiction; reflexivity).
-    constructor.
+    constructor; try (destruct e; try contradiction; exact I).
     - intros rest. apply (leaf_heads e Hk Hp rest).
     - intros _ rest. apply (leaf_heads e Hk Hp rest).
     - intros _ _ rest. apply (leaf_heads e Hk Hp rest).
@@ -183,6 +197,14 @@ Section Main.
   Lemma PT_or a b : match a with Or _ _ => false | _ => true end = true ->
     PT (Or a b) = MWP a ++ TOrOr :: MWP b.
   Proof. destruct a; intros H; try reflexivity; discriminate. Qed.
+  Lemma PT_and_chain a1 a2 b : PT (And (And a1 a2) b) = PT (And a1 a2) ++ TAndAnd :: MWP b.
+  Proof. reflexivity. Qed.
+  Lemma PT_or_chain a1 a2 b : PT (Or (Or a1 a2) b) = PT (Or a1 a2) ++ TOrOr :: MWP b.
+  Proof. reflexivity. Qed.
+  Lemma PT_infix_chain op t a b : binop_tok op = Some t -> same_assoc op a = true ->
+    PT (BinApp op a b) = PT a ++ t :: MWP b.
+  Proof. intros Ht Hs. cbn [print_toks]. rewrite Ht, Hs. reflexivity. Qed.
+
   Lemma PT_infix op t a b : binop_tok op = Some t -> same_assoc op a = false ->
     PT (BinApp op a b) = MWP a ++ t :: MWP b.
   Proof. intros Ht Hs. cbn [print_toks]. rewrite Ht, Hs. reflexivity. Qed.
@@ -247,7 +269,7 @@ Section Main.
       apply andb_true_iff in Hf. destruct Hf as [Hf Hfe]. apply andb_true_iff in Hf. destruct Hf as [Hfc Hft].
       apply andb_true_iff in Hp. destruct Hp as [Hp Hpe]. apply andb_true_iff in Hp. destruct Hp as [Hpc Hpt].
       specialize (IHc Hfc Hpc). specialize (IHt Hft Hpt). specialize (IHe Hfe Hpe).
-      constructor; try (intros; reflexivity); try (cbn [level]; intros; contradiction); try (intros; discriminate).
+      constructor; try exact I; try (intros; reflexivity); try (cbn [level]; intros; contradiction); try (intros; discriminate).
       intros f Hn rest Hr. cbn [level parse_at need] in *. rewrite PT_if_app.
       eapply body_if.
       + apply (m_nopath c IHc).
@@ -258,47 +280,85 @@ Section Main.
       + apply into_expr_sp; exact Hpt.
       + apply into_expr_sp; exact Hpe.
     - (* And *)
-      apply andb_true_iff in Hf. destruct Hf as [Hf Hfb]. apply andb_true_iff in Hf. destruct Hf as [Hna Hfa].
+      apply andb_true_iff in Hf. destruct Hf as [Hfa Hfb].
       apply andb_true_iff in Hp. destruct Hp as [Hp Hbb]. apply andb_true_iff in Hp. destruct Hp as [Hpa Hpb].
-      specialize (IHa Hfa Hpa). specialize (IHb Hfb Hpb).
-      apply negb_true_iff in Hbb.
-      assert (PT (And a b) = MWP a ++ TAndAnd :: MWP b) as EP
-        by (apply PT_and; destruct a; try reflexivity; discriminate).
+      specialize (IHa Hfa Hpa). specialize (IHb Hfb Hpb). apply negb_true_iff in Hbb.
+      assert (forall rest, starts_path (PT (And a b) ++ rest) = false /\ not_if_head (PT (And a b) ++ rest) = true
+                           /\ head_plain (PT (And a b) ++ rest) = true) as Hh.
+      { intros rest. destruct a; try (rewrite PT_and by reflexivity; rewrite <- app_assoc; apply (head_mwp _ _ IHa)).
+        rewrite PT_and_chain, <- app_assoc. repeat split;
+          [apply (m_nopath _ IHa)|apply (m_notif _ IHa); cbn; lia|apply (m_plain _ IHa); cbn; lia]. }
+      assert (forall f, (need (And a b) <= f)%nat -> forall rest, follow_ok 3 rest = true ->
+                exists n, (f <= n + need (And a b))%nat /\
+                  parse_and (R f) f (PT (And a b) ++ rest) = and_loop (R f) f n (And a b) rest) as C.
+      { intros f Hn rest Hr. cbn [need] in Hn.
+        destruct (operand b Hpb IHb f ltac:(lia) 3%nat ltac:(lia) rest Hr) as (rb & Hb & Ib).
+        assert (exists n, (f <= n + need (And a b))%nat /\
+                    parse_and (R f) f (MWP a ++ TAndAnd :: MWP b ++ rest) = and_loop (R f) f n (And a b) rest) as Base.
+        {
+          destruct (operand a Hpa IHa f ltac:(lia) 3%nat ltac:(lia) (TAndAnd :: MWP b ++ rest) eq_refl) as (ra & Ha & Ia).
+          destruct f as [|f']; [lia|]. exists f'. split; [cbn [need]; lia|].
+          erewrite parse_and_enter; [|exact Ha|exact Ia].
+          erewrite and_loop_step; [|exact Hb|exact Ib]. rewrite (mk_and_not_both a b Hbb). reflexivity. }
+        destruct a; try (rewrite PT_and by reflexivity; rewrite <- app_assoc; cbn [app]; exact Base).
+        rewrite PT_and_chain, <- app_assoc. cbn [app].
+        match type of IHa with main ?x => assert (need x <= f)%nat as Hna by (cbn [need] in *; lia) end.
+        destruct (m_C _ IHa f Hna (TAndAnd :: MWP b ++ rest) eq_refl) as (n0 & Hn0 & He).
+        cbn [need] in *. destruct n0 as [|n']; [lia|]. exists n'. split; [cbn [need]; lia|].
+        rewrite He. erewrite and_loop_step; [|exact Hb|exact Ib]. rewrite (mk_and_not_both _ b Hbb). reflexivity. }
       constructor; try (intros; discriminate).
-      + intros rest. rewrite EP, <- app_assoc. apply (head_mwp a _ IHa).
-      + intros _ rest. rewrite EP, <- app_assoc. apply (head_mwp a _ IHa).
-      + intros _ _ rest. rewrite EP, <- app_assoc. apply (head_mwp a _ IHa).
-      + intros f Hn rest Hr. cbn [level parse_at need] in *. rewrite EP, <- app_assoc. cbn [app].
-        destruct (operand a Hpa IHa f ltac:(lia) 3%nat ltac:(lia) (TAndAnd :: MWP b ++ rest) eq_refl) as (ra & Ha & Ia).
-        destruct (operand b Hpb IHb f ltac:(lia) 3%nat ltac:(lia) rest ltac:(eapply follow_mono; [exact Hr|lia])) as (rb & Hb & Ib).
-        change (SP (And a b)) with (EExpr (And a b)). rewrite <- (mk_and_not_both a b Hbb).
-        eapply parse_and_op; try eassumption; [lia|]. apply follow_and. exact Hr.
+      + intros rest. apply Hh.
+      + intros _ rest. apply Hh.
+      + intros _ _ rest. apply Hh.
+      + intros f Hn rest Hr. cbn [level] in Hr. cbn [level parse_at sp].
+        destruct (C f Hn rest ltac:(eapply follow_mono; [exact Hr|lia])) as (n & _ & He). rewrite He.
+        apply and_loop_stop. apply follow_and. exact Hr.
+      + exact C.
     - (* Or *)
-      apply andb_true_iff in Hf. destruct Hf as [Hf Hfb]. apply andb_true_iff in Hf. destruct Hf as [Hna Hfa].
+      apply andb_true_iff in Hf. destruct Hf as [Hfa Hfb].
       apply andb_true_iff in Hp. destruct Hp as [Hp Hbb]. apply andb_true_iff in Hp. destruct Hp as [Hpa Hpb].
-      specialize (IHa Hfa Hpa). specialize (IHb Hfb Hpb).
-      apply negb_true_iff in Hbb.
-      assert (PT (Or a b) = MWP a ++ TOrOr :: MWP b) as EP
-        by (apply PT_or; destruct a; try reflexivity; discriminate).
+      specialize (IHa Hfa Hpa). specialize (IHb Hfb Hpb). apply negb_true_iff in Hbb.
+      assert (forall rest, starts_path (PT (Or a b) ++ rest) = false /\ not_if_head (PT (Or a b) ++ rest) = true
+                           /\ head_plain (PT (Or a b) ++ rest) = true) as Hh.
+      { intros rest. destruct a; try (rewrite PT_or by reflexivity; rewrite <- app_assoc; apply (head_mwp _ _ IHa)).
+        rewrite PT_or_chain, <- app_assoc. repeat split;
+          [apply (m_nopath _ IHa)|apply (m_notif _ IHa); cbn; lia|apply (m_plain _ IHa); cbn; lia]. }
+      assert (forall f, (need (Or a b) <= f)%nat -> forall rest, follow_ok 2 rest = true ->
+                exists n, (f <= n + need (Or a b))%nat /\
+                  parse_or (R f) f (PT (Or a b) ++ rest) = or_loop (R f) f n (Or a b) rest) as C.
+      { intros f Hn rest Hr. cbn [need] in Hn.
+        destruct (operand b Hpb IHb f ltac:(lia) 2%nat ltac:(lia) rest Hr) as (rb & Hb & Ib).
+        assert (exists n, (f <= n + need (Or a b))%nat /\
+                    parse_or (R f) f (MWP a ++ TOrOr :: MWP b ++ rest) = or_loop (R f) f n (Or a b) rest) as Base.
+        {
+          destruct (operand a Hpa IHa f ltac:(lia) 2%nat ltac:(lia) (TOrOr :: MWP b ++ rest) eq_refl) as (ra & Ha & Ia).
+          destruct f as [|f']; [lia|]. exists f'. split; [cbn [need]; lia|].
+          erewrite parse_or_enter; [|exact Ha|exact Ia].
+          erewrite or_loop_step; [|exact Hb|exact Ib]. rewrite (mk_or_not_both a b Hbb). reflexivity. }
+        destruct a; try (rewrite PT_or by reflexivity; rewrite <- app_assoc; cbn [app]; exact Base).
+        rewrite PT_or_chain, <- app_assoc. cbn [app].
+        match type of IHa with main ?x => assert (need x <= f)%nat as Hna by (cbn [need] in *; lia) end.
+        destruct (m_C _ IHa f Hna (TOrOr :: MWP b ++ rest) eq_refl) as (n0 & Hn0 & He).
+        cbn [need] in *. destruct n0 as [|n']; [lia|]. exists n'. split; [cbn [need]; lia|].
+        rewrite He. erewrite or_loop_step; [|exact Hb|exact Ib]. rewrite (mk_or_not_both _ b Hbb). reflexivity. }
       constructor; try (intros; discriminate).
-      + intros rest. rewrite EP, <- app_assoc. apply (head_mwp a _ IHa).
-      + intros _ rest. rewrite EP, <- app_assoc. apply (head_mwp a _ IHa).
-      + intros _ _ rest. rewrite EP, <- app_assoc. apply (head_mwp a _ IHa).
-      + intros f Hn rest Hr. cbn [level parse_at need] in *. rewrite EP, <- app_assoc. cbn [app].
-        destruct (operand a Hpa IHa f ltac:(lia) 2%nat ltac:(lia) (TOrOr :: MWP b ++ rest) eq_refl) as (ra & Ha & Ia).
-        destruct (operand b Hpb IHb f ltac:(lia) 2%nat ltac:(lia) rest ltac:(eapply follow_mono; [exact Hr|lia])) as (rb & Hb & Ib).
-        change (SP (Or a b)) with (EExpr (Or a b)). rewrite <- (mk_or_not_both a b Hbb).
-        eapply parse_or_op; try eassumption; [lia|]. apply follow_or. exact Hr.
+      + intros rest. apply Hh.
+      + intros _ rest. apply Hh.
+      + intros _ _ rest. apply Hh.
+      + intros f Hn rest Hr. cbn [level] in Hr. cbn [level parse_at sp].
+        destruct (C f Hn rest ltac:(eapply follow_mono; [exact Hr|lia])) as (n & _ & He). rewrite He.
+        apply or_loop_stop. apply follow_or. exact Hr.
+      + exact C.
     - (* UnApp *)
       destruct op; try discriminate; specialize (IHa Hf Hp).
       + (* Not *)
-        constructor; try (intros; reflexivity); try (cbn [level]; intros; contradiction); try (intros; discriminate).
+        constructor; try exact I; try (intros; reflexivity); try (cbn [level]; intros; contradiction); try (intros; discriminate).
         intros f Hn rest Hr. cbn [level parse_at need] in *.
         change (PT (UnApp UNot a) ++ rest) with (TBang :: (MWP a ++ rest)).
         destruct (operand a Hp IHa f ltac:(lia) 7%nat ltac:(lia) rest ltac:(eapply follow_mono; [exact Hr|lia])) as (ra & Ha & Ia).
         eapply parse_unary_not; [apply (head_mwp a _ IHa)|exact Ha|exact Ia].
       + (* Neg *)
-        constructor; try (intros; reflexivity); try (cbn [level]; intros; contradiction); try (intros; discriminate).
+        constructor; try exact I; try (intros; reflexivity); try (cbn [level]; intros; contradiction); try (intros; discriminate).
         intros f Hn rest Hr. cbn [level parse_at need] in *. cbn [print_toks app]. rewrite <- app_assoc. cbn [app].
         assert (follow_ok 7 rest = true) as H7 by (eapply follow_mono; [exact Hr|lia]).
         destruct (follow7_no_access rest H7) as [Hacc _].
@@ -306,49 +366,160 @@ Section Main.
         apply pm_noacc; [|exact Hacc]. apply paren_primary; [exact Hp|exact IHa|lia].
     - (* BinApp *)
       destruct (binop_tok op) as [tk|] eqn:Etk; [|discriminate].
-      apply andb_true_iff in Hf. destruct Hf as [Hf Hfb]. apply andb_true_iff in Hf. destruct Hf as [Hsa Hfa].
+      apply andb_true_iff in Hf. destruct Hf as [Hfa Hfb].
       apply andb_true_iff in Hp. destruct Hp as [Hpa Hpb].
-      specialize (IHa Hfa Hpa). specialize (IHb Hfb Hpb). apply negb_true_iff in Hsa.
-      pose proof (PT_infix op tk a b Etk Hsa) as EP.
-      assert (bare_operand (BinApp op a b) = false) as Hnb by (destruct op; try reflexivity; discriminate).
-      assert (level (BinApp op a b) <> 0%nat /\ level (BinApp op a b) <> 6%nat) as [Hl0 Hl6]
-        by (destruct op; cbn; split; lia).
-      constructor.
-      + intros rest. rewrite EP, <- app_assoc. apply (head_mwp a _ IHa).
-      + intros _ rest. rewrite EP, <- app_assoc. apply (head_mwp a _ IHa).
-      + intros _ _ rest. rewrite EP, <- app_assoc. apply (head_mwp a _ IHa).
-      + intros f Hn rest Hr. cbn [need] in Hn. rewrite EP, <- app_assoc. cbn [app].
-        destruct op; try discriminate; cbn [binop_tok] in Etk; inversion Etk; subst tk; clear Etk;
-          cbn [level parse_at sp] in *.
-        * (* == *)
-          destruct (operand a Hpa IHa f ltac:(lia) 4%nat ltac:(lia) (TEqEq :: MWP b ++ rest) eq_refl) as (ra & Ha & Ia).
-          destruct (operand b Hpb IHb f ltac:(lia) 4%nat ltac:(lia) rest ltac:(eapply follow_mono; [exact Hr|lia])) as (rb & Hb & Ib).
-          eapply parse_rel_relop; try eassumption; try reflexivity. apply follow_rel; exact Hr.
-        * (* < *)
-          destruct (operand a Hpa IHa f ltac:(lia) 4%nat ltac:(lia) (TLt :: MWP b ++ rest) eq_refl) as (ra & Ha & Ia).
-          destruct (operand b Hpb IHb f ltac:(lia) 4%nat ltac:(lia) rest ltac:(eapply follow_mono; [exact Hr|lia])) as (rb & Hb & Ib).
-          eapply parse_rel_relop; try eassumption; try reflexivity. apply follow_rel; exact Hr.
-        * (* <= *)
-          destruct (operand a Hpa IHa f ltac:(lia) 4%nat ltac:(lia) (TLe :: MWP b ++ rest) eq_refl) as (ra & Ha & Ia).
-          destruct (operand b Hpb IHb f ltac:(lia) 4%nat ltac:(lia) rest ltac:(eapply follow_mono; [exact Hr|lia])) as (rb & Hb & Ib).
-          eapply parse_rel_relop; try eassumption; try reflexivity. apply follow_rel; exact Hr.
-        * (* + *)
-          destruct (operand a Hpa IHa f ltac:(lia) 5%nat ltac:(lia) (TPlus :: MWP b ++ rest) eq_refl) as (ra & Ha & Ia).
-          destruct (operand b Hpb IHb f ltac:(lia) 5%nat ltac:(lia) rest ltac:(eapply follow_mono; [exact Hr|lia])) as (rb & Hb & Ib).
-          eapply parse_add_op; try eassumption; [left; split; reflexivity|lia|]. apply follow_add; exact Hr.
-        * (* - *)
-          destruct (operand a Hpa IHa f ltac:(lia) 5%nat ltac:(lia) (TMinus :: MWP b ++ rest) eq_refl) as (ra & Ha & Ia).
-          destruct (operand b Hpb IHb f ltac:(lia) 5%nat ltac:(lia) rest ltac:(eapply follow_mono; [exact Hr|lia])) as (rb & Hb & Ib).
-          eapply parse_add_op; try eassumption; [right; split; reflexivity|lia|]. apply follow_add; exact Hr.
-        * (* * *)
-          destruct (operand a Hpa IHa f ltac:(lia) 6%nat ltac:(lia) (TStar :: MWP b ++ rest) eq_refl) as (ra & Ha & Ia).
-          destruct (operand b Hpb IHb f ltac:(lia) 6%nat ltac:(lia) rest ltac:(eapply follow_mono; [exact Hr|lia])) as (rb & Hb & Ib).
-          eapply parse_mul_op; try eassumption; [lia|]. apply follow_mul; exact Hr.
-        * (* in *)
-          destruct (operand a Hpa IHa f ltac:(lia) 4%nat ltac:(lia) (tid "in" :: MWP b ++ rest) eq_refl) as (ra & Ha & Ia).
-          destruct (operand b Hpb IHb f ltac:(lia) 4%nat ltac:(lia) rest ltac:(eapply follow_mono; [exact Hr|lia])) as (rb & Hb & Ib).
-          eapply parse_rel_relop; try eassumption; try reflexivity. apply follow_rel; exact Hr.
-      + intros Hb. rewrite Hnb in Hb. discriminate.
+      specialize (IHa Hfa Hpa). specialize (IHb Hfb Hpb).
+      destruct op; try discriminate Etk; clear Etk tk.
+        { (* == *)
+          assert (forall rest, starts_path (PT (BinApp BEq a b) ++ rest) = false /\ not_if_head (PT (BinApp BEq a b) ++ rest) = true
+                               /\ head_plain (PT (BinApp BEq a b) ++ rest) = true) as Hh
+            by (intros rest; rewrite (PT_infix BEq _ a b eq_refl eq_refl), <- app_assoc; apply (head_mwp _ _ IHa)).
+          constructor; try exact I; try (intros; discriminate).
+          - intros rest. apply Hh.
+          - intros _ rest. apply Hh.
+          - intros _ _ rest. apply Hh.
+          - intros f Hn rest Hr. cbn [need] in Hn. rewrite (PT_infix BEq _ a b eq_refl eq_refl), <- app_assoc. cbn [app level parse_at sp] in *.
+            destruct (operand a Hpa IHa f ltac:(lia) 4%nat ltac:(lia) (TEqEq :: MWP b ++ rest) eq_refl) as (ra & Ha & Ia).
+            destruct (operand b Hpb IHb f ltac:(lia) 4%nat ltac:(lia) rest ltac:(eapply follow_mono; [exact Hr|lia])) as (rb & Hb & Ib).
+            eapply parse_rel_relop; try eassumption; try reflexivity. apply follow_rel; exact Hr. }
+        { (* < *)
+          assert (forall rest, starts_path (PT (BinApp BLess a b) ++ rest) = false /\ not_if_head (PT (BinApp BLess a b) ++ rest) = true
+                               /\ head_plain (PT (BinApp BLess a b) ++ rest) = true) as Hh
+            by (intros rest; rewrite (PT_infix BLess _ a b eq_refl eq_refl), <- app_assoc; apply (head_mwp _ _ IHa)).
+          constructor; try exact I; try (intros; discriminate).
+          - intros rest. apply Hh.
+          - intros _ rest. apply Hh.
+          - intros _ _ rest. apply Hh.
+          - intros f Hn rest Hr. cbn [need] in Hn. rewrite (PT_infix BLess _ a b eq_refl eq_refl), <- app_assoc. cbn [app level parse_at sp] in *.
+            destruct (operand a Hpa IHa f ltac:(lia) 4%nat ltac:(lia) (TLt :: MWP b ++ rest) eq_refl) as (ra & Ha & Ia).
+            destruct (operand b Hpb IHb f ltac:(lia) 4%nat ltac:(lia) rest ltac:(eapply follow_mono; [exact Hr|lia])) as (rb & Hb & Ib).
+            eapply parse_rel_relop; try eassumption; try reflexivity. apply follow_rel; exact Hr. }
+        { (* <= *)
+          assert (forall rest, starts_path (PT (BinApp BLessEq a b) ++ rest) = false /\ not_if_head (PT (BinApp BLessEq a b) ++ rest) = true
+                               /\ head_plain (PT (BinApp BLessEq a b) ++ rest) = true) as Hh
+            by (intros rest; rewrite (PT_infix BLessEq _ a b eq_refl eq_refl), <- app_assoc; apply (head_mwp _ _ IHa)).
+          constructor; try exact I; try (intros; discriminate).
+          - intros rest. apply Hh.
+          - intros _ rest. apply Hh.
+          - intros _ _ rest. apply Hh.
+          - intros f Hn rest Hr. cbn [need] in Hn. rewrite (PT_infix BLessEq _ a b eq_refl eq_refl), <- app_assoc. cbn [app level parse_at sp] in *.
+            destruct (operand a Hpa IHa f ltac:(lia) 4%nat ltac:(lia) (TLe :: MWP b ++ rest) eq_refl) as (ra & Ha & Ia).
+            destruct (operand b Hpb IHb f ltac:(lia) 4%nat ltac:(lia) rest ltac:(eapply follow_mono; [exact Hr|lia])) as (rb & Hb & Ib).
+            eapply parse_rel_relop; try eassumption; try reflexivity. apply follow_rel; exact Hr. }
+        { (* + *)
+          assert (forall rest, starts_path (PT (BinApp BAdd a b) ++ rest) = false /\ not_if_head (PT (BinApp BAdd a b) ++ rest) = true
+                               /\ head_plain (PT (BinApp BAdd a b) ++ rest) = true) as Hh.
+          { intros rest. destruct (same_assoc BAdd a) eqn:Hs.
+            - rewrite (PT_infix_chain BAdd _ a b eq_refl Hs), <- app_assoc.
+              assert (level a <> 0 /\ level a <> 6)%nat as [L0 L6]
+                by (destruct a; try discriminate Hs; match goal with o : binop |- _ => destruct o end; try discriminate Hs; cbn; lia).
+              repeat split; [apply (m_nopath _ IHa)|apply (m_notif _ IHa); exact L0|apply (m_plain _ IHa); assumption].
+            - rewrite (PT_infix BAdd _ a b eq_refl Hs), <- app_assoc. apply (head_mwp _ _ IHa). }
+          assert (forall f, (need (BinApp BAdd a b) <= f)%nat -> forall rest, follow_ok 5 rest = true ->
+                    exists n, (f <= n + need (BinApp BAdd a b))%nat /\
+                      parse_add (R f) f (PT (BinApp BAdd a b) ++ rest) = add_loop (R f) f n (BinApp BAdd a b) rest) as C.
+          { intros f Hn rest Hr. cbn [need] in Hn.
+            destruct (operand b Hpb IHb f ltac:(lia) 5%nat ltac:(lia) rest Hr) as (rb & Hb & Ib).
+            destruct (same_assoc BAdd a) eqn:Hs.
+            - rewrite (PT_infix_chain BAdd _ a b eq_refl Hs), <- app_assoc. cbn [app].
+              destruct a; try discriminate Hs. match goal with o : binop |- _ => destruct o end; try discriminate Hs.
+              match type of IHa with main ?x => assert (need x <= f)%nat as Hna by (cbn [need] in *; lia) end.
+        destruct (m_C _ IHa f Hna (TPlus :: MWP b ++ rest) eq_refl) as (n0 & Hn0 & He).
+              cbn [need] in *. destruct n0 as [|n']; [lia|]. exists n'. split; [cbn [need]; lia|].
+              rewrite He. erewrite add_loop_plus; [|exact Hb|exact Ib]. reflexivity.
+            - rewrite (PT_infix BAdd _ a b eq_refl Hs), <- app_assoc. cbn [app].
+              destruct (operand a Hpa IHa f ltac:(lia) 5%nat ltac:(lia) (TPlus :: MWP b ++ rest) eq_refl) as (ra & Ha & Ia).
+              destruct f as [|f']; [lia|]. exists f'. split; [cbn [need]; lia|].
+              erewrite parse_add_enter; [|exact Ha|reflexivity|exact Ia].
+              erewrite add_loop_plus; [|exact Hb|exact Ib]. reflexivity. }
+          constructor; try (intros; discriminate).
+          - intros rest. apply Hh.
+          - intros _ rest. apply Hh.
+          - intros _ _ rest. apply Hh.
+          - intros f Hn rest Hr. cbn [level] in Hr. cbn [level parse_at sp].
+            destruct (C f Hn rest ltac:(eapply follow_mono; [exact Hr|lia])) as (n & _ & He). rewrite He.
+            apply add_loop_stop. apply follow_add. exact Hr.
+          - exact C. }
+        { (* - *)
+          assert (forall rest, starts_path (PT (BinApp BSub a b) ++ rest) = false /\ not_if_head (PT (BinApp BSub a b) ++ rest) = true
+                               /\ head_plain (PT (BinApp BSub a b) ++ rest) = true) as Hh.
+          { intros rest. destruct (same_assoc BSub a) eqn:Hs.
+            - rewrite (PT_infix_chain BSub _ a b eq_refl Hs), <- app_assoc.
+              assert (level a <> 0 /\ level a <> 6)%nat as [L0 L6]
+                by (destruct a; try discriminate Hs; match goal with o : binop |- _ => destruct o end; try discriminate Hs; cbn; lia).
+              repeat split; [apply (m_nopath _ IHa)|apply (m_notif _ IHa); exact L0|apply (m_plain _ IHa); assumption].
+            - rewrite (PT_infix BSub _ a b eq_refl Hs), <- app_assoc. apply (head_mwp _ _ IHa). }
+          assert (forall f, (need (BinApp BSub a b) <= f)%nat -> forall rest, follow_ok 5 rest = true ->
+                    exists n, (f <= n + need (BinApp BSub a b))%nat /\
+                      parse_add (R f) f (PT (BinApp BSub a b) ++ rest) = add_loop (R f) f n (BinApp BSub a b) rest) as C.
+          { intros f Hn rest Hr. cbn [need] in Hn.
+            destruct (operand b Hpb IHb f ltac:(lia) 5%nat ltac:(lia) rest Hr) as (rb & Hb & Ib).
+            destruct (same_assoc BSub a) eqn:Hs.
+            - rewrite (PT_infix_chain BSub _ a b eq_refl Hs), <- app_assoc. cbn [app].
+              destruct a; try discriminate Hs. match goal with o : binop |- _ => destruct o end; try discriminate Hs.
+              match type of IHa with main ?x => assert (need x <= f)%nat as Hna by (cbn [need] in *; lia) end.
+        destruct (m_C _ IHa f Hna (TMinus :: MWP b ++ rest) eq_refl) as (n0 & Hn0 & He).
+              cbn [need] in *. destruct n0 as [|n']; [lia|]. exists n'. split; [cbn [need]; lia|].
+              rewrite He. erewrite add_loop_minus; [|exact Hb|exact Ib]. reflexivity.
+            - rewrite (PT_infix BSub _ a b eq_refl Hs), <- app_assoc. cbn [app].
+              destruct (operand a Hpa IHa f ltac:(lia) 5%nat ltac:(lia) (TMinus :: MWP b ++ rest) eq_refl) as (ra & Ha & Ia).
+              destruct f as [|f']; [lia|]. exists f'. split; [cbn [need]; lia|].
+              erewrite parse_add_enter; [|exact Ha|reflexivity|exact Ia].
+              erewrite add_loop_minus; [|exact Hb|exact Ib]. reflexivity. }
+          constructor; try (intros; discriminate).
+          - intros rest. apply Hh.
+          - intros _ rest. apply Hh.
+          - intros _ _ rest. apply Hh.
+          - intros f Hn rest Hr. cbn [level] in Hr. cbn [level parse_at sp].
+            destruct (C f Hn rest ltac:(eapply follow_mono; [exact Hr|lia])) as (n & _ & He). rewrite He.
+            apply add_loop_stop. apply follow_add. exact Hr.
+          - exact C. }
+        { (* * *)
+          assert (forall rest, starts_path (PT (BinApp BMul a b) ++ rest) = false /\ not_if_head (PT (BinApp BMul a b) ++ rest) = true
+                               /\ head_plain (PT (BinApp BMul a b) ++ rest) = true) as Hh.
+          { intros rest. destruct (same_assoc BMul a) eqn:Hs.
+            - rewrite (PT_infix_chain BMul _ a b eq_refl Hs), <- app_assoc.
+              assert (level a <> 0 /\ level a <> 6)%nat as [L0 L6]
+                by (destruct a; try discriminate Hs; match goal with o : binop |- _ => destruct o end; try discriminate Hs; cbn; lia).
+              repeat split; [apply (m_nopath _ IHa)|apply (m_notif _ IHa); exact L0|apply (m_plain _ IHa); assumption].
+            - rewrite (PT_infix BMul _ a b eq_refl Hs), <- app_assoc. apply (head_mwp _ _ IHa). }
+          assert (forall f, (need (BinApp BMul a b) <= f)%nat -> forall rest, follow_ok 6 rest = true ->
+                    exists n, (f <= n + need (BinApp BMul a b))%nat /\
+                      parse_mul (R f) f (PT (BinApp BMul a b) ++ rest) = mul_loop (R f) f n (BinApp BMul a b) rest) as C.
+          { intros f Hn rest Hr. cbn [need] in Hn.
+            destruct (operand b Hpb IHb f ltac:(lia) 6%nat ltac:(lia) rest Hr) as (rb & Hb & Ib).
+            destruct (same_assoc BMul a) eqn:Hs.
+            - rewrite (PT_infix_chain BMul _ a b eq_refl Hs), <- app_assoc. cbn [app].
+              destruct a; try discriminate Hs. match goal with o : binop |- _ => destruct o end; try discriminate Hs.
+              match type of IHa with main ?x => assert (need x <= f)%nat as Hna by (cbn [need] in *; lia) end.
+        destruct (m_C _ IHa f Hna (TStar :: MWP b ++ rest) eq_refl) as (n0 & Hn0 & He).
+              cbn [need] in *. destruct n0 as [|n']; [lia|]. exists n'. split; [cbn [need]; lia|].
+              rewrite He. erewrite mul_loop_star; [|exact Hb|exact Ib]. reflexivity.
+            - rewrite (PT_infix BMul _ a b eq_refl Hs), <- app_assoc. cbn [app].
+              destruct (operand a Hpa IHa f ltac:(lia) 6%nat ltac:(lia) (TStar :: MWP b ++ rest) eq_refl) as (ra & Ha & Ia).
+              destruct f as [|f']; [lia|]. exists f'. split; [cbn [need]; lia|].
+              erewrite parse_mul_enter; [|exact Ha|exact Ia].
+              erewrite mul_loop_star; [|exact Hb|exact Ib]. reflexivity. }
+          constructor; try (intros; discriminate).
+          - intros rest. apply Hh.
+          - intros _ rest. apply Hh.
+          - intros _ _ rest. apply Hh.
+          - intros f Hn rest Hr. cbn [level] in Hr. cbn [level parse_at sp].
+            destruct (C f Hn rest ltac:(eapply follow_mono; [exact Hr|lia])) as (n & _ & He). rewrite He.
+            apply mul_loop_stop. apply follow_mul. exact Hr.
+          - exact C. }
+        { (* in *)
+          assert (forall rest, starts_path (PT (BinApp BIn a b) ++ rest) = false /\ not_if_head (PT (BinApp BIn a b) ++ rest) = true
+                               /\ head_plain (PT (BinApp BIn a b) ++ rest) = true) as Hh
+            by (intros rest; rewrite (PT_infix BIn _ a b eq_refl eq_refl), <- app_assoc; apply (head_mwp _ _ IHa)).
+          constructor; try exact I; try (intros; discriminate).
+          - intros rest. apply Hh.
+          - intros _ rest. apply Hh.
+          - intros _ _ rest. apply Hh.
+          - intros f Hn rest Hr. cbn [need] in Hn. rewrite (PT_infix BIn _ a b eq_refl eq_refl), <- app_assoc. cbn [app level parse_at sp] in *.
+            destruct (operand a Hpa IHa f ltac:(lia) 4%nat ltac:(lia) (tid "in" :: MWP b ++ rest) eq_refl) as (ra & Ha & Ia).
+            destruct (operand b Hpb IHb f ltac:(lia) 4%nat ltac:(lia) rest ltac:(eapply follow_mono; [exact Hr|lia])) as (rb & Hb & Ib).
+            eapply parse_rel_relop; try eassumption; try reflexivity. apply follow_rel; exact Hr. }
     - (* GetAttr *)
       apply andb_true_iff in Hp. destruct Hp as [Hpa Hk]. specialize (IHa Hf Hpa).
       assert (forall f, (need (GetAttr a k) <= f)%nat -> forall rest,
@@ -366,7 +537,7 @@ Section Main.
           + destruct f as [|f']; [lia|]. cbn [parse_expr].
             apply (str_tok_at (R f') f' 0); [lia|reflexivity].
           + apply unescape_opt_escape. exact Hk. }
-      constructor.
+      constructor; try exact I.
       + intros rest. cbn [print_toks]. rewrite <- app_assoc. apply (head_mwp a _ IHa).
       + intros _ rest. cbn [print_toks]. rewrite <- app_assoc. apply (head_mwp a _ IHa).
       + intros _ _ rest. cbn [print_toks]. rewrite <- app_assoc. apply (head_mwp a _ IHa).
@@ -376,7 +547,7 @@ Section Main.
       + intros _ f Hn rest Hr. apply (G f Hn rest). apply acc_head_facts. exact Hr.
     - (* HasAttr *)
       apply andb_true_iff in Hp. destruct Hp as [Hpa Hk]. specialize (IHa Hf Hpa).
-      constructor; try (intros; discriminate).
+      constructor; try exact I; try (intros; discriminate).
       + intros rest. cbn [print_toks]. rewrite <- app_assoc. apply (head_mwp a _ IHa).
       + intros _ rest. cbn [print_toks]. rewrite <- app_assoc. apply (head_mwp a _ IHa).
       + intros _ _ rest. cbn [print_toks]. rewrite <- app_assoc. apply (head_mwp a _ IHa).
@@ -389,7 +560,7 @@ Section Main.
         * unfold tstr. cbn [parse_has_rhs]. rewrite unescape_opt_escape by exact Hk. reflexivity.
     - (* Like *)
       apply andb_true_iff in Hp. destruct Hp as [Hpa Hk]. specialize (IHa Hf Hpa).
-      constructor; try (intros; discriminate).
+      constructor; try exact I; try (intros; discriminate).
       + intros rest. cbn [print_toks]. rewrite <- app_assoc. apply (head_mwp a _ IHa).
       + intros _ rest. cbn [print_toks]. rewrite <- app_assoc. apply (head_mwp a _ IHa).
       + intros _ _ rest. cbn [print_toks]. rewrite <- app_assoc. apply (head_mwp a _ IHa).
@@ -400,7 +571,7 @@ Section Main.
         apply (str_tok_at (R f) f 4); [lia|]. eapply follow_mono; [exact Hr|lia].
     - (* Is *)
       apply andb_true_iff in Hp. destruct Hp as [Hpa Hk]. specialize (IHa Hf Hpa).
-      constructor; try (intros; discriminate).
+      constructor; try exact I; try (intros; discriminate).
       + intros rest. cbn [print_toks]. rewrite <- app_assoc. apply (head_mwp a _ IHa).
       + intros _ rest. cbn [print_toks]. rewrite <- app_assoc. apply (head_mwp a _ IHa).
       + intros _ _ rest. cbn [print_toks]. rewrite <- app_assoc. apply (head_mwp a _ IHa).
@@ -437,21 +608,22 @@ Section Final.
     - apply andb_true_iff in Hf. destruct Hf as [Hf Hfe]. apply andb_true_iff in Hf. destruct Hf as [Hfc Hft].
       specialize (IHc Hfc). specialize (IHt Hft). specialize (IHe Hfe).
       cbn [need print_toks]. repeat (rewrite app_length || cbn [length]). lia.
-    - apply andb_true_iff in Hf. destruct Hf as [Hf Hfb]. apply andb_true_iff in Hf. destruct Hf as [Hna Hfa].
-      specialize (IHa Hfa). specialize (IHb Hfb).
-      rewrite (PT_and np ge a b) by (destruct a; try reflexivity; discriminate).
-      cbn [need]. rewrite app_length. cbn [length]. pose proof (mwp_length a). pose proof (mwp_length b). lia.
-    - apply andb_true_iff in Hf. destruct Hf as [Hf Hfb]. apply andb_true_iff in Hf. destruct Hf as [Hna Hfa].
-      specialize (IHa Hfa). specialize (IHb Hfb).
-      rewrite (PT_or np ge a b) by (destruct a; try reflexivity; discriminate).
-      cbn [need]. rewrite app_length. cbn [length]. pose proof (mwp_length a). pose proof (mwp_length b). lia.
+    - apply andb_true_iff in Hf. destruct Hf as [Hfa Hfb].
+      specialize (IHa Hfa). specialize (IHb Hfb). pose proof (mwp_length a). pose proof (mwp_length b).
+      destruct a; try (rewrite (PT_and np ge) by reflexivity; cbn [need] in *; rewrite app_length; cbn [length]; lia).
+      rewrite PT_and_chain. cbn [need] in *. rewrite app_length. cbn [length]. lia.
+    - apply andb_true_iff in Hf. destruct Hf as [Hfa Hfb].
+      specialize (IHa Hfa). specialize (IHb Hfb). pose proof (mwp_length a). pose proof (mwp_length b).
+      destruct a; try (rewrite (PT_or np ge) by reflexivity; cbn [need] in *; rewrite app_length; cbn [length]; lia).
+      rewrite PT_or_chain. cbn [need] in *. rewrite app_length. cbn [length]. lia.
     - destruct op; try discriminate; specialize (IHa Hf); cbn [need print_toks length];
         repeat (rewrite app_length || cbn [length]); pose proof (mwp_length a); fold (mwp np ge a); lia.
     - destruct (binop_tok op) as [tk|] eqn:Etk; [|discriminate].
-      apply andb_true_iff in Hf. destruct Hf as [Hf Hfb]. apply andb_true_iff in Hf. destruct Hf as [Hsa Hfa].
-      specialize (IHa Hfa). specialize (IHb Hfb). apply negb_true_iff in Hsa.
-      rewrite (PT_infix np ge op tk a b Etk Hsa).
-      cbn [need]. rewrite app_length. cbn [length]. pose proof (mwp_length a). pose proof (mwp_length b). lia.
+      apply andb_true_iff in Hf. destruct Hf as [Hfa Hfb].
+      specialize (IHa Hfa). specialize (IHb Hfb). pose proof (mwp_length a). pose proof (mwp_length b).
+      destruct (same_assoc op a) eqn:Hsa.
+      + rewrite (PT_infix_chain np ge op tk a b Etk Hsa). cbn [need]. rewrite app_length. cbn [length]. lia.
+      + rewrite (PT_infix np ge op tk a b Etk Hsa). cbn [need]. rewrite app_length. cbn [length]. lia.
     - specialize (IHa Hf). cbn [need print_toks]. fold (mwp np ge a). rewrite app_length.
       pose proof (mwp_length a). destruct (is_normalized_ident k); cbn [length]; lia.
     - specialize (IHa Hf). cbn [need print_toks]. fold (mwp np ge a). rewrite app_length.
